@@ -55,6 +55,10 @@ def run(F, X, rep):
     C = R.Ctx.get(F, X)
     import p_c19
     p_c19.i_params_immutable(F, X, rep, "C12-P")
+    # "the node's configured base fee, proportional fee and CLTV delta": the three policy options are what reaches the policy
+    mb = p_c19.main_body(F)
+    if rep.anchor("C12-W", "main coroutine", 1 if mb else 0):
+        p_c19.w_wiring(F, X, rep, mb, F.root_of(mb), rid="C12-W")
     if R.need_lc(C, rep, "C12-L"):
         R.t1_timer_value(C, rep, "C12-L")
         R.t4_not_before(C, rep, "C12-L")
